@@ -120,23 +120,28 @@ fn ski_of(n: u64) -> KeyIdentifier {
     KeyIdentifier::from(b)
 }
 fn info_of(n: u64) -> RouterKeyInfo { RouterKeyInfo::new(Bytes::copy_from_slice(&(n as u32).to_be_bytes())).unwrap() }
-/// Byte strings as numbers: big-endian value of the bytes (20 bytes for a key identifier);
-/// key info: big-endian value of 0x01 followed by the bytes (keeps leading zeros apart).
-fn num_of_bytes(prefix_one: bool, b: &[u8]) -> String {
-    // decimal printing of a big number
-    let mut digits: Vec<u8> = vec![0];
-    let mut feed = |byte: u8, digits: &mut Vec<u8>| {
-        let mut carry = byte as u32;
-        for d in digits.iter_mut() {
-            let v = (*d as u32) * 256 + carry;
-            *d = (v % 10) as u8;
-            carry = v / 10;
-        }
-        while carry > 0 { digits.push((carry % 10) as u8); carry /= 10; }
-    };
-    if prefix_one { feed(1, &mut digits); }
-    for x in b { feed(*x, &mut digits); }
-    digits.iter().rev().map(|d| (b'0' + d) as char).collect()
+thread_local! {
+    /// byte strings of real objects seen in the current case (see `num_of_bytes`)
+    static INTERN: std::cell::RefCell<Vec<Vec<u8>>> = Default::default();
+}
+/// Byte strings as numbers (the model only compares them). The harness' own small encodings keep their
+/// value: a key identifier `ski_of(n)` is n, a key info `info_of(n)` is 2^32 + n. Any other byte string (key
+/// identifier and key of a real certificate) gets 2^72 + its index among such strings in the current case,
+/// in order of first appearance (Coq parses long number literals slowly).
+fn num_of_bytes(is_info: bool, b: &[u8]) -> String {
+    if !is_info && b.len() == 20 && b[..12].iter().all(|x| *x == 0) {
+        return u64::from_be_bytes(b[12..].try_into().unwrap()).to_string();
+    }
+    if is_info && b.len() == 4 {
+        return ((1u64 << 32) + u32::from_be_bytes(b.try_into().unwrap()) as u64).to_string();
+    }
+    let mut key = vec![is_info as u8];
+    key.extend_from_slice(b);
+    INTERN.with(|t| {
+        let mut t = t.borrow_mut();
+        let idx = match t.iter().position(|x| *x == key) { Some(i) => i, None => { t.push(key); t.len() - 1 } };
+        ((1u128 << 72) + idx as u128).to_string()
+    })
 }
 
 /// A list of numbers as a Coq term; arithmetic progressions of 6 or more items are written `nseq from count step`
@@ -377,6 +382,7 @@ fn coq_roas(pt: &Value) -> String {
 }
 
 fn run_pipeline(input: &Value, fx: &Fixtures) -> (Result<Snap, String>, String, Value) {
+    INTERN.with(|t| t.borrow_mut().clear());
     let config = config_of(input);
     let report = ValidationReport::new(&config);
     let flags = report.verif_config();
@@ -946,12 +952,12 @@ fn gen_compose(rng: &mut Rng, tier: &str) -> Vec<(String, Value)> {
         let mut pts = Vec::new();
         for _ in 0..3 {
             let mut roas = Vec::new();
-            for _ in 0..60 {
+            for _ in 0..25 {
                 let a = *r.pick(&ASNS);
                 let es: Vec<Value> = (0..4).map(|_| { let p = rand_pfx(&mut r); let ml = rand_ml(&mut r, p); pool.push(origin_j(p, ml.clone(), a)); entry(p, ml) }).collect();
                 roas.push(roa(a, es));
             }
-            pts.push(json!({"tal": r.below(2), "roas": roas, "keys": [{"asns": [[64000, 64200]], "ski": r.below(3), "info": 0}],
+            pts.push(json!({"tal": r.below(2), "roas": roas, "keys": [{"asns": [[64000, 64100]], "ski": r.below(3), "info": 0}],
                             "aspas": (0..40).map(|k| json!([65000 + (k % 25), [100 + r.below(50), 200 + r.below(50)]])).collect::<Vec<_>>()}));
         }
         c["points"] = json!(pts);
